@@ -13,7 +13,7 @@ use std::time::{Duration, Instant};
 
 const TIMEOUT_MS: u64 = 700;
 const MEM_LIMIT: usize = 64 << 20;
-const KINDS: [char; 6] = ['A', 'P', 'S', 'M', 'X', 'B'];
+const KINDS: [char; 7] = ['A', 'P', 'S', 'M', 'X', 'B', 'L'];
 const MARKER: &str = "c18-deliberate-panic";
 
 #[derive(Serialize, Deserialize, Debug)]
@@ -96,6 +96,8 @@ pub fn seq_main(kinds: &str, gap_ms: u64) -> ! {
                 'A' => Req::Add(tag, 7 * tag),
                 'P' => Req::Panic(tag),
                 'S' => Req::Sleep(TIMEOUT_MS * 10, tag),
+                // overruns the limit only slightly: its late reply must never reach a later request
+                'L' => Req::Sleep(TIMEOUT_MS + TIMEOUT_MS / 2, tag),
                 'M' => Req::Alloc(MEM_LIMIT * 4, tag),
                 'X' => Req::Exit(3, tag),
                 _ => Req::Big(big_payload(i), tag),
@@ -114,6 +116,7 @@ pub fn seq_main(kinds: &str, gap_ms: u64) -> ! {
                 return Ok(());
             }
             if *k != 'A' && *k != 'B' && gap_ms > 0 {
+                // (for 'L' a 400 ms gap ends just as the abandoned request's late reply is written)
                 async_std::task::sleep(Duration::from_millis(gap_ms)).await;
             }
         }
@@ -138,14 +141,14 @@ impl C18 {
         let lens: Vec<u64> = if tier == "thorough" { vec![1, 2, 3, 4] } else { vec![1, 2] };
         let mut fams = Fams::default();
         for l in &lens {
-            fams.add(&format!("fault sequences of length {} (+2 trailing normal requests) x gap", l), vec![6u64.pow(*l as u32), 2]);
+            fams.add(&format!("fault sequences of length {} (+2 trailing normal requests) x gap", l), vec![7u64.pow(*l as u32), 2]);
         }
         C18 { fams, lens }
     }
     fn seq(&self, idx: u64) -> (String, u64) {
         let (f, d) = self.fams.locate(idx);
         let l = self.lens[f] as usize;
-        let digits = decode(d[0], &vec![6; l]);
+        let digits = decode(d[0], &vec![7; l]);
         let mut s: String = digits.iter().map(|x| KINDS[*x as usize]).collect();
         s.push_str("AA");
         (s, if d[1] == 0 { 0 } else { 400 })
@@ -301,7 +304,7 @@ fn judge(kinds: &str, lines: &[Value]) -> Vec<(String, String)> {
                 last_fault_pid = current_pid;
                 need_new_pid = current_pid.is_some();
             }
-            'S' => {
+            'S' | 'L' => {
                 if !(res == "err" && err == "Timeout") {
                     bad.push(("overrunning request is not reported as a timeout".to_string(), ctx("expected Error::Timeout")));
                 }
@@ -334,6 +337,7 @@ fn prefix_class(prefix: &[char]) -> String {
     match prefix.iter().rev().find(|c| **c != 'A' && **c != 'B') {
         Some('P') => "a panic".into(),
         Some('S') => "a timeout".into(),
+        Some('L') => "a slight overrun".into(),
         Some('M') => "memory exhaustion".into(),
         Some('X') => "a child exit".into(),
         _ => "no fault".into(),
@@ -345,13 +349,13 @@ impl Space for C18 {
         Meta {
             id: "C18",
             level: "fault_enumeration",
-            rule: format!("every sequence of length <= {} over the six request kinds {{normal, panic, overrun of the time limit, allocation beyond the memory limit, child exit, 2 MiB payload}}, each followed by two normal requests, x gap in {{0 ms, 400 ms}} after each fault, run against the real rink_sandbox::Sandbox with real child processes (one parent process per sequence). Oracle: every execute returns within the time limit + 2.5 s; reply i belongs to request i (unique operands / payload checksum); normal and large requests succeed whatever preceded them; panic -> Error::Panic with the marker, overrun -> Timeout, memory/exit -> Crashed; after a fault the next reply comes from another process and the failed child is gone; no process of the group outlives the parent. Non-trivial = the sequence contains a fault followed by a request (all do); distinct by (sequence, gap)", self.lens.last().unwrap()),
+            rule: format!("every sequence of length <= {} over the seven request kinds {{normal, panic, overrun of the time limit by 10x, overrun by 1.5x (its reply arrives late), allocation beyond the memory limit, child exit, 2 MiB payload}}, each followed by two normal requests, x gap in {{0 ms, 400 ms}} after each fault, run against the real rink_sandbox::Sandbox with real child processes (one parent process per sequence). Oracle: every execute returns within the time limit + 2.5 s; reply i belongs to request i (unique operands / payload checksum); normal and large requests succeed whatever preceded them; panic -> Error::Panic with the marker, overrun -> Timeout, memory/exit -> Crashed; after a fault the next reply comes from another process and the failed child is gone; no process of the group outlives the parent. Non-trivial = the sequence contains a fault followed by a request (all do); distinct by (sequence, gap)", self.lens.last().unwrap()),
             assumptions: vec![
                 format!("service time limit {} ms (hundreds of times a normal round trip); a sequence whose only anomaly is timing is re-run once alone before being believed", TIMEOUT_MS),
                 "child memory limit 64 MiB, RUST_BACKTRACE=0".into(),
             ],
             exhaustive: true,
-            extra: json!({"families": self.fams.summary(), "request_kinds": {"A": "normal add", "P": "panic", "S": "sleep 10x the limit", "M": "allocate 4x the limit", "X": "exit(3)", "B": "2 MiB payload echo"}}),
+            extra: json!({"families": self.fams.summary(), "request_kinds": {"A": "normal add", "P": "panic", "S": "sleep 10x the limit", "L": "sleep 1.5x the limit (late reply)", "M": "allocate 4x the limit", "X": "exit(3)", "B": "2 MiB payload echo"}}),
         }
     }
     fn len(&self) -> u64 {
